@@ -540,3 +540,18 @@ package scan
 //@   props C08 C14 C16 C03 C06 C20
 //@   observe Results
 //@   entry row forward: [call Results(recv.Resulter) as (c)] when ret == c -> exit
+
+// carriers on the address and port streams: a value carrier yields exactly its value and no error, an error
+// carrier yields no value and itself as the error (C13: the cause travels unchanged)
+//@ func (WrapIP).GetIP
+//@   props C01 C02 C13 C19
+//@   ensures ret0 == i && ret1 == nil
+//@ func (WrapPort).GetPort
+//@   props C01 C13
+//@   ensures ret0 == p && ret1 == nil
+//@ func (*ipError).GetIP
+//@   props C13 C01
+//@   ensures len(ret0) == 0 && isptr(ret1, ipError) && asptr(ret1, ipError) == err
+//@ func (*portError).GetPort
+//@   props C13 C01
+//@   ensures ret0 == 0 && isptr(ret1, portError) && asptr(ret1, portError) == err
